@@ -11,6 +11,8 @@ import (
 	"fmt"
 	"os"
 	"reflect"
+	"sort"
+	"strings"
 	"time"
 )
 
@@ -95,15 +97,15 @@ func one(kind string) uint64 {
 	return v[0]
 }
 
-func Symbolic() bool  { return false }
-func Bool() bool      { return one("Bool") != 0 }
-func Byte() byte      { return byte(one("Byte")) }
-func Uint16() uint16  { return uint16(one("Uint16")) }
-func Uint32() uint32  { return uint32(one("Uint32")) }
-func Int32() int32    { return int32(one("Int32")) }
-func Uint64() uint64  { return one("Uint64") }
-func Int64() int64    { return int64(one("Int64")) }
-func Int() int        { return int(one("Int")) }
+func Symbolic() bool { return false }
+func Bool() bool     { return one("Bool") != 0 }
+func Byte() byte     { return byte(one("Byte")) }
+func Uint16() uint16 { return uint16(one("Uint16")) }
+func Uint32() uint32 { return uint32(one("Uint32")) }
+func Int32() int32   { return int32(one("Int32")) }
+func Uint64() uint64 { return one("Uint64") }
+func Int64() int64   { return int64(one("Int64")) }
+func Int() int       { return int(one("Int")) }
 func IntRange(lo, hi int64) int64 {
 	v := int64(one("IntRange"))
 	if v < lo || v > hi {
@@ -151,11 +153,11 @@ func Assert(c bool, label string) {
 		fmt.Printf("VREPLAY-VIOLATION label=%q\n", label)
 	}
 }
-func Cover(tag string)     { Covers = append(Covers, tag) }
-func Note(s string)        { fmt.Println("VREPLAY-NOTE", s) }
-func Yield()               {}
-func Preempt(on bool)      {}
-func PermuteMaps(on bool)  {}
+func Cover(tag string)    { Covers = append(Covers, tag) }
+func Note(s string)       { fmt.Println("VREPLAY-NOTE", s) }
+func Yield()              {}
+func Preempt(on bool)     {}
+func PermuteMaps(on bool) {}
 func Panics(f func()) (panicked bool) {
 	defer func() {
 		if r := recover(); r != nil {
@@ -191,6 +193,18 @@ func Run(f func()) (outcome string) {
 		outcome = "violation"
 	} else {
 		outcome = "ok"
+	}
+	{
+		seen := map[string]bool{}
+		var tags []string
+		for _, c := range Covers {
+			if !seen[c] {
+				seen[c] = true
+				tags = append(tags, c)
+			}
+		}
+		sort.Strings(tags)
+		fmt.Println("VREPLAY-COVERS", strings.Join(tags, ","))
 	}
 	fmt.Println("VREPLAY-END", outcome)
 	return outcome
